@@ -8,7 +8,9 @@
 (* The lines are independent evaluations (no state is carried), so a rejected *)
 (* line does not stop the run.                                                 *)
 (*                                                                            *)
-(*  ev = "Encode"      a.v = VAA value (byte tuples), s.body / s.marshal =    *)
+(*  ev = "Encode"      a.v = VAA value (byte tuples), [a.mode = retained /      *)
+(*                     nested / concurrent: several values in flight],          *)
+(*                     s.body / s.marshal =                                    *)
 (*                     real SerializeBody / Marshal bytes, s.digestH2 = real  *)
 (*                     SigningMsg is Keccak256(Keccak256(s.body))             *)
 (*  ev = "ProcBody"    a.v = body fields of a MessagePublication, s.body =    *)
@@ -35,6 +37,12 @@ EncodeChecks(a, s) ==
     [body     |-> s.body = Body(a.v),
      marshal  |-> s.marshal = Encode(a.v),
      digestH2 |-> s.digestH2,
+     \* parameter a.mode of the action: WHEN the results were looked at.  Absent = right after the calls;
+     \* "retained" = after the other values of a batch had been serialized too (the returned body was held, not
+     \* copied); "nested" = the value's payload is the slice SerializeBody returned for another message;
+     \* "concurrent" = other goroutines were serializing their own values meanwhile.  The required output is the
+     \* same in every mode: the functions are deterministic in their argument alone.
+     mode     |-> Has(a, "mode") => a.mode \in {"retained", "nested", "concurrent"},
      \* C04 cases carry the summary over every header (version, set index, signatures, sub-second time):
      \* one signing body, one digest, and the tail of Marshal is the signing body
      headerIndependent |-> Has(s, "distinctBodies") => (s.distinctBodies = 1 /\ s.distinctDigests = 1 /\ s.tailIsBody)]
@@ -87,6 +95,7 @@ Checks(ln) ==
            [] ln.ev = "Redigest"    -> RedigestChecks(ln.a, ln.s)
            [] ln.ev = "Decode"      -> DecodeChecks(ln.a, ln.s)
            [] ln.ev = "DecodeShape" -> ShapeChecks(ln.a, ln.s)
+           [] ln.ev = "DataRace"    -> [noDataRace |-> FALSE]          \* the Go race detector reported a race in the real code
            [] OTHER                 -> [knownEvent |-> FALSE]
 
 Failed(ck) == {f \in DOMAIN ck : ~ck[f]}
